@@ -15,7 +15,62 @@ DRIVER = "drv-c06"
 PROOF_MODULES = ["TetlProofs.C06.Props"]
 HARNESS = "harness/c06.cpp"
 import os
-HARNESS_FLAGS = ["-DC06_SEARCH_N_PTR_ONLY"] if os.environ.get("C06_SEARCH_N_PTR_ONLY") else []
+import sys
+import lib
+BASE_FLAGS = ["-DC06_SEARCH_N_PTR_ONLY"] if os.environ.get("C06_SEARCH_N_PTR_ONLY") else []
+HARNESS_FLAGS = list(BASE_FLAGS)
+PARTS = [0, -1]     # harness/c06.cpp: 0 = arithmetic element types + constexpr tables, -1 = everything else + main
+
+
+def _build_parts():
+    """compile the two translation units of the harness in parallel; returns the object files.  An object file is reused
+    when the preprocessed translation unit (every header of the tree under test expanded), the flags and the compiler are
+    byte-identical to those it was compiled from: any change of the library or of the harness gives a new key."""
+    import concurrent.futures as cf
+    import hashlib
+    os.makedirs(lib.BUILD, exist_ok=True)
+    cache = os.path.join(lib.BUILD, "c06_objcache")
+    os.makedirs(cache, exist_ok=True)
+    flags = list(lib.CXXFLAGS) + BASE_FLAGS
+    cxxv = lib.sh([lib.CXX, "--version"])[1]
+    src = os.path.join(lib.VERIF, HARNESS)
+
+    def one(k):
+        base = [lib.CXX] + flags + ["-DC06_PART=%d" % k, "-I", os.path.join(lib.REPO, "include"), "-I", os.path.join(lib.VERIF, "harness")]
+        rc, o, e = lib.sh(base + ["-E", src], timeout=600)
+        if rc != 0:
+            return None, rc, o[-200:] + e
+        key = hashlib.sha256((cxxv + "\0" + " ".join(flags) + "\0" + o).encode()).hexdigest()[:32]
+        out = os.path.join(cache, "part%d_%s.o" % (k, key))
+        if os.path.exists(out):
+            os.utime(out)
+            return out, 0, "cached"
+        tmp = out + ".%d.tmp" % os.getpid()
+        rc, o, e = lib.sh(base + ["-c", src, "-o", tmp], timeout=1800)
+        if rc == 0:
+            os.replace(tmp, out)
+        return out, rc, o + e
+
+    with cf.ThreadPoolExecutor(max_workers=len(PARTS)) as ex:
+        res = list(ex.map(one, PARTS))
+    bad = [r for r in res if r[1] != 0]
+    if bad:
+        raise lib.MachineryError("harness does not compile against %s:\n%s" % (lib.REPO, bad[0][2][-3000:]))
+    olds = sorted((os.path.join(cache, f) for f in os.listdir(cache)), key=os.path.getmtime)
+    for f in olds[:-16]:
+        os.unlink(f)
+    return [r[0] for r in res]
+
+
+def run(ctx, replay=None):
+    """standard flow of check.py, with the translation units of the harness pre-compiled in parallel (check.py then only links)"""
+    global HARNESS_FLAGS
+    objs = _build_parts()
+    HARNESS_FLAGS = BASE_FLAGS + ["-DC06_PART=-2"] + objs
+    import check
+    return check.standard(sys.modules[__name__], ctx, replay)
+
+
 SOURCES = ["include/etl/_algorithm", "include/etl/_numeric/accumulate.hpp", "include/etl/_numeric/reduce.hpp",
            "include/etl/_numeric/inner_product.hpp", "include/etl/_numeric/partial_sum.hpp",
            "include/etl/_numeric/adjacent_difference.hpp", "include/etl/_numeric/iota.hpp",
@@ -30,9 +85,19 @@ RULE = ("exhaustive: every key sequence of length <= 5 (quick) / 6 (thorough) ov
         "dflt/less/greater/key%3, binary predicates dflt/eq/key%2, every middle/split point, every count n in [-1,len+1] where the "
         "standard defines it, every second range of length <= 3 (4) over 3 keys (<= 2 over 4 keys) for first ranges up to length 4 (5), "
         "the needle of search/find_end/find_first_of also as a sub-range between context elements. Iterator categories: ranges of "
-        "length <= 2 (empty and single-element included) run with EVERY category the algorithm accepts (pointer, input, forward, "
-        "bidirectional wrappers; range-checked random-access wrapper for the random-access sorts); longer ranges with one category per "
-        "case, rotated by a per-operation counter. Output-iterator algorithms write into a destination with 0 or 2 context elements in "
+        "length <= 2 (empty and single-element included) run with EVERY category the algorithm accepts (pointer, input-tagged pointer "
+        "wrapper `in`, genuinely single-pass input iterator `in1` whose copies share one cursor - using a stale copy is reported as "
+        "!multipass - for every algorithm declared for input iterators, forward, bidirectional wrappers; range-checked random-access "
+        "wrapper for the random-access sorts); longer ranges with one category per case, rotated by a per-operation counter; the "
+        "4-iterator equal with ptr/in/in1/fwd on every pair of ranges. Arithmetic element types (signed char, unsigned char, char, "
+        "short, bool through raw pointers; the value is the key): (i) every pair of ranges of length <= 2 over the 5-letter alphabet "
+        "{min,-1,0,1,max} of the type ({0,1,127,128,255} for unsigned char, {0,1} for bool) for lexicographical_compare (dflt, less), "
+        "equal (3/4 iterators), mismatch, search, and every range of length <= 3 over it for min/max_element, sort, stable_sort, "
+        "find, count, each ALSO evaluated by the compiler in a constexpr table of the harness (`ce=`: run-time result = "
+        "constant-evaluated result = std = spec); (ii) every range of length <= 4 (5) over three letters for the seven sorts, "
+        "min/max/minmax_element, is_sorted_until, lower/upper_bound with dflt/less/greater, and for ranges of length <= 2 every "
+        "second range of length <= 3 for lexicographical_compare, includes, equal, mismatch, search, find_end, is_permutation; "
+        "(iii) 400 (3000) random ranges per type over its whole value range. Output-iterator algorithms write into a destination with 0 or 2 context elements in "
         "front, an exact-fit window or one spare position, one context element behind, through a pointer or a write-only output "
         "iterator wrapper (layout rotated per operation). Binary searches run on every sequence that is PARTITIONED with respect to the "
         "value (the standard's precondition; sorted is not required). Plus seeded random sequences up to length 14 over 2-4 keys. Inputs "
@@ -40,29 +105,34 @@ RULE = ("exhaustive: every key sequence of length <= 5 (quick) / 6 (thorough) ov
         "and the binary searches, overlapping copy destinations) are not generated. A case is non-trivial when its range has at least "
         "two elements (or, for two-range algorithms, both ranges are non-empty); distinct = distinct case text.")
 ASSUMPTIONS = ["libstdc++ 12 <algorithm>/<numeric> on raw pointers is the reference for spec validation (R2)",
-               "elements are trivially copyable ints with an identity tag; moved-from positions are masked as unspecified",
+               "elements are trivially copyable ints with an identity tag (or plain signed char / unsigned char / char / short / bool values in the ty= cases); moved-from positions are masked as unspecified",
+               "char is a signed type on the target the harness is built for (x86-64 / g++)",
                "comparators are strict weak orders, binary predicates equivalence relations (the standard's preconditions)",
                "numeric folds are run on values far from overflow"]
 TRUSTED = ["hand model Tetl/C06/Model/*.lean tied to the source by the correspondence run (R1) on every run",
            "spec Tetl/C06/Spec.lean validated against libstdc++ (R2) on every run"]
 _T = "Tetl.C06.Props."
 THEOREMS = {op: [_T + t for t in ts] for op, ts in {
-    "find": ["find_eq"], "find_if": ["findIf_eq"], "find_if_not": ["findIfNot_eq"], "all_of": ["allOf_eq"],
-    "any_of": ["anyOf_eq"], "none_of": ["noneOf_eq"], "count": ["count_eq"], "count_if": ["countIf_eq"],
-    "for_each": ["forEach_eq"], "for_each_n": ["forEachN_eq"], "copy_n": ["copyN_eq", "copyN_out", "copyN_out_excludes_prefix_code"],
+    "find": ["find_eq", "find_singlePass"], "find_if": ["findIf_eq", "findIf_singlePass"],
+    "find_if_not": ["findIfNot_eq", "findIfNot_singlePass"], "all_of": ["allOf_eq", "allOf_singlePass"],
+    "any_of": ["anyOf_eq", "anyOf_singlePass"], "none_of": ["noneOf_eq", "noneOf_singlePass"],
+    "count": ["count_eq", "count_singlePass"], "count_if": ["countIf_eq", "countIf_singlePass"],
+    "for_each": ["forEach_eq", "forEach_singlePass"], "for_each_n": ["forEachN_eq", "forEachN_singlePass"], "copy_n": ["copyN_eq", "copyN_out", "copyN_out_excludes_prefix_code"],
     "transform": ["transform1_eq", "transform1_out"], "transform2": ["transform2_eq", "transform2_out"],
     "copy_if": ["copyIf_eq", "copyIf_out"],
     "remove_copy_if": ["removeCopyIf_eq", "removeCopyIf_out", "removeCopyIf_out_excludes_prefix_code"],
     "remove_copy": ["removeCopy_eq", "removeCopy_out"], "partition_copy": ["partitionCopy_eq", "partitionCopy_out"],
     "reverse_copy": ["reverseCopy_eq", "reverseCopy_out"], "copy_out": ["copyOut_out"], "move_out": ["copyOut_out"],
-    "partition_point": ["partitionPoint_eq"], "is_partitioned": ["isPartitioned_eq"],
+    "partition_point": ["partitionPoint_eq"], "is_partitioned": ["isPartitioned_eq", "isPartitioned_singlePass"],
     "find_first_of": ["findFirstOf_eq", "findFirstOfB_eq"],
-    "rotate": ["rotate_eq"], "rotate_copy": ["rotateCopy_eq", "rotateCopy_out"], "reverse": ["reverseRA_eq", "reverseBidi_eq"],
+    "rotate": ["rotate_eq"], "rotate_copy": ["rotateCopy_eq", "rotateCopy_out"], "reverse": ["reverseRA_eq", "reverseBidi_eq", "reverseRev_eq"],
+    "rit_rel": ["reverseIterator_relations", "reverseIterator_relations_excludes_unreversed"],
     "lower_bound": ["lowerBound_eq"], "upper_bound": ["upperBound_eq"], "equal_range": ["equalRange_eq"],
-    "binary_search": ["binarySearch_eq"], "mismatch": ["mismatch3_eq", "mismatch4_eq"],
-    "equal": ["equal3_eq", "equal4RA_eq", "equal4Fwd_eq"], "lexicographical_compare": ["lexicographicalCompare_eq"],
-    "accumulate": ["accumulate_eq"], "reduce": ["reduce_eq"], "transform_reduce1": ["transformReduce1_eq"],
-    "inner_product": ["innerProduct_eq"], "transform_reduce": ["transformReduce2_eq"],
+    "binary_search": ["binarySearch_eq"], "mismatch": ["mismatch3_eq", "mismatch4_eq", "mismatch3_singlePass", "mismatch4_singlePass"],
+    "equal": ["equal3_eq", "equal4RA_eq", "equal4Fwd_eq", "equal3_singlePass", "equal4_singlePass", "equal4_distanceFirst_not_singlePass"],
+    "lexicographical_compare": ["lexicographicalCompare_eq", "lexicographicalCompare_singlePass"],
+    "accumulate": ["accumulate_eq", "accumulate_singlePass"], "reduce": ["reduce_eq", "accumulate_singlePass"], "transform_reduce1": ["transformReduce1_eq"],
+    "inner_product": ["innerProduct_eq", "innerProduct_singlePass"], "transform_reduce": ["transformReduce2_eq", "innerProduct_singlePass"],
     "adjacent_difference": ["adjacentDifference_eq", "adjacentDifference_out"],
     "partial_sum": ["partialSum_eq", "partialSum_out"], "iota": ["iota_eq"],
     "min": ["min2_eq", "min2_char"], "max": ["max2_eq", "max2_char"], "minmax": ["minmax2_eq", "min2_char", "max2_char"],
@@ -76,7 +146,7 @@ THEOREMS = {op: [_T + t for t in ts] for op, ts in {
     "adjacent_find": ["adjacentFind_eq"], "is_sorted_until": ["isSortedUntil_eq"], "is_sorted": ["isSorted_eq"],
     "min_element": ["minElement_eq"], "max_element": ["maxElement_eq"], "minmax_element": ["minmaxElement_eq"],
     "search": ["search_eq", "searchB_eq"], "find_end": ["findEnd_eq", "findEndB_eq"], "search_n": ["searchN_eq"],
-    "is_permutation": ["isPermutation3_eq", "isPermutation4_eq", "isPermutation_spec_iff_perm"], "includes": ["includes_eq"],
+    "is_permutation": ["isPermutation3_eq", "isPermutation4_eq", "isPermutation_spec_iff_perm"], "includes": ["includes_eq", "includes_singlePass"],
     "partition": ["partition_eq"], "stable_partition": ["stablePartition_eq"],
     "sort": ["sort_eq"], "gnome_sort": ["gnomeSort_eq"], "bubble_sort": ["bubbleSort_eq"], "exchange_sort": ["exchangeSort_eq", "exchangeSort_unguarded_empty_oob"],
     "nth_element": ["nthElement_eq", "sorted_split"], "partial_sort": ["partialSort_eq", "sorted_split"],
@@ -167,7 +237,7 @@ class Gen:
             self._emit(ln, t)
 
 
-IN = ["ptr", "in", "fwd", "bidi"]
+IN = ["ptr", "in", "in1", "fwd", "bidi"]   # in1: genuinely single-pass (all copies share one cursor; stale copy => !multipass)
 FWD = ["ptr", "fwd", "bidi"]
 BIDI = ["ptr", "bidi"]
 RA = ["ptr", "ra"]          # ra: range-checked random-access iterator (arithmetic outside [first,last] is reported)
@@ -281,7 +351,7 @@ def gen_two_ranges(g, r, b, a, f, l):
             g.add("find_end", a, f, l, ne, FWD)
             g.add("find_first_of", a, f, l, ne, IN)
         g.add("mismatch", a, f, l, e + " ov=4", IN)
-        for it in ("ptr", "in", "fwd"):
+        for it in ("ptr", "in", "in1", "fwd"):
             g.add("equal", a, f, l, e + " ov=4 it=" + it)
         if len(b) >= n:
             g.add("mismatch", a, f, l, e + " ov=3", IN)
@@ -331,6 +401,9 @@ def gen_minmax(g):
                             g.add("clamp", [], 0, 0, "v=%d lo=%d hi=%d cmp=%s" % (v, y, hi, cmp))
 
 
+NUM_IN = ["ptr", "in", "in1", "fwd"]
+
+
 def gen_numeric(g, maxlen, blen):
     alpha = [-2, 0, 1, 3]
     for n in range(maxlen + 1):
@@ -339,20 +412,106 @@ def gen_numeric(g, maxlen, blen):
             for a, f, l in ((([7] + r + [9]), 1, 1 + n), (r, 0, n)):
                 for op in ("dflt", "minus", "mul2"):
                     for init in (0, 5):
-                        g.add("accumulate", a, f, l, "init=%d op=%s" % (init, op), ["ptr", "in", "fwd"])
-                        g.add("reduce", a, f, l, "init=%d op=%s" % (init, op), ["ptr", "in", "fwd"])
-                        g.add("transform_reduce1", a, f, l, "init=%d op=%s" % (init, op), ["ptr", "in", "fwd"])
-                    g.add("partial_sum", a, f, l, "op=" + op, ["ptr", "in", "fwd"])
-                    g.add("adjacent_difference", a, f, l, "op=" + op, ["ptr", "in", "fwd"])
-                g.add("reduce", a, f, l, "ov=noinit", ["ptr", "in", "fwd"])
+                        g.add("accumulate", a, f, l, "init=%d op=%s" % (init, op), NUM_IN)
+                        g.add("reduce", a, f, l, "init=%d op=%s" % (init, op), NUM_IN)
+                        g.add("transform_reduce1", a, f, l, "init=%d op=%s" % (init, op), NUM_IN)
+                    g.add("partial_sum", a, f, l, "op=" + op, NUM_IN)
+                    g.add("adjacent_difference", a, f, l, "op=" + op, NUM_IN)
+                g.add("reduce", a, f, l, "ov=noinit", NUM_IN)
                 g.add("iota", a, f, l, "v=%d" % (n - 2), ["ptr", "fwd"])
             if n <= blen:
                 for t2 in itertools.product(alpha, repeat=n):
                     for extra in ([], [4]):
                         b = list(t2) + extra
                         for op in ("dflt", "minus"):
-                            g.add("inner_product", r, 0, n, "b=%s init=3 op=%s" % (fmt_list(b), op), ["ptr", "in", "fwd"])
-                            g.add("transform_reduce", r, 0, n, "b=%s init=3 op=%s" % (fmt_list(b), op), ["ptr", "in", "fwd"])
+                            g.add("inner_product", r, 0, n, "b=%s init=3 op=%s" % (fmt_list(b), op), NUM_IN)
+                            g.add("transform_reduce", r, 0, n, "b=%s init=3 op=%s" % (fmt_list(b), op), NUM_IN)
+
+
+# arithmetic element types through raw pointers (harness: arith<T>): the value is the key, no identity tags.
+# ALPHA = the alphabet of the harness' constexpr tables (ce=1: the same call also evaluated by the compiler).
+ALPHA = {"sc": [-128, -1, 0, 1, 127], "uc": [0, 1, 127, 128, 255], "c": [-128, -1, 0, 1, 127],
+         "sh": [-32768, -1, 0, 1, 32767], "b": [0, 1]}
+ARITH_SORTS = ["sort", "stable_sort", "insertion_sort", "merge_sort", "gnome_sort", "bubble_sort", "exchange_sort"]
+
+
+def gen_arith(g, thorough):
+    def add(op, ty, a, f, l, extra):
+        g._emit("%s ty=%s a=%s f=%d l=%d %s" % (op, ty, fmt_list(a), f, l, extra), op + "/" + ty)
+
+    def ltv(cmp, x, y):
+        return x > y if cmp == "greater" else x < y
+
+    for ty, al in ALPHA.items():
+        ctx = 1 if ty == "b" else 77
+        s2 = [list(t) for n in range(3) for t in itertools.product(al, repeat=n)]
+        s3 = s2 + [list(t) for t in itertools.product(al, repeat=3)]
+        # (1) the constexpr box: both ranges of length <= 2 over the alphabet; run time and compile time must agree
+        for r in s2:
+            for a, f, l in (((r, 0, len(r)),) if len(r) == 1 else (([ctx] + r + [ctx], 1, 1 + len(r)),)):
+                for b in s2:
+                    bs = "b=" + fmt_list(b)
+                    for cmp in ("dflt", "less"):
+                        add("lexicographical_compare", ty, a, f, l, "%s cmp=%s ce=1" % (bs, cmp))
+                    add("equal", ty, a, f, l, bs + " ov=4 ce=1")
+                    if len(b) >= len(r):
+                        add("equal", ty, a, f, l, bs + " ov=3 ce=1")
+                    add("mismatch", ty, a, f, l, bs + " ov=4 ce=1")
+                    add("search", ty, a, f, l, bs + " ce=1")
+        for r in s3:
+            a, f, l = ([ctx] + r + [ctx], 1, 1 + len(r)) if len(r) % 2 else (r, 0, len(r))
+            for op in ("min_element", "max_element", "sort", "stable_sort"):
+                add(op, ty, a, f, l, "cmp=dflt ce=1")
+            for v in al:
+                add("find", ty, a, f, l, "v=%d ce=1" % v)
+                add("count", ty, a, f, l, "v=%d ce=1" % v)
+        # (2) the other comparison-based algorithms and comparators, lengths up to 4 (5) over three letters of the alphabet
+        sub = al if len(al) == 2 else [al[0], al[2], al[4]] if ty in ("sc", "sh") else [al[1], al[2], al[4]]
+        L1 = 5 if thorough else 4
+        for n in range(L1 + 1):
+            for t in itertools.product(sub, repeat=n):
+                r = list(t)
+                a, f, l = [ctx] + r + [ctx], 1, 1 + n
+                for cmp in ("dflt", "less", "greater"):
+                    e = "cmp=" + cmp
+                    for op in ARITH_SORTS + ["min_element", "max_element", "minmax_element", "is_sorted_until"]:
+                        add(op, ty, a, f, l, e)
+                    if all(not ltv(cmp, r[i + 1], r[i]) for i in range(n - 1)):
+                        for v in sub:
+                            add("lower_bound", ty, a, f, l, "v=%d %s" % (v, e))
+                            add("upper_bound", ty, a, f, l, "v=%d %s" % (v, e))
+                if n <= 2:
+                    for nb in range(4):
+                        for t2 in itertools.product(sub, repeat=nb):
+                            b = list(t2)
+                            bs = "b=" + fmt_list(b)
+                            for cmp in ("dflt", "less", "greater"):
+                                add("lexicographical_compare", ty, a, f, l, "%s cmp=%s" % (bs, cmp))
+                                if all(not ltv(cmp, r[i + 1], r[i]) for i in range(n - 1)) and all(not ltv(cmp, b[i + 1], b[i]) for i in range(nb - 1)):
+                                    add("includes", ty, a, f, l, "%s cmp=%s" % (bs, cmp))
+                            for eq in ("dflt", "eq"):
+                                add("equal", ty, a, f, l, "%s ov=4 eq=%s" % (bs, eq))
+                                add("mismatch", ty, a, f, l, "%s ov=4 eq=%s" % (bs, eq))
+                                add("search", ty, a, f, l, "%s eq=%s" % (bs, eq))
+                                add("find_end", ty, a, f, l, "%s eq=%s" % (bs, eq))
+                            add("is_permutation", ty, a, f, l, bs + " ov=4")
+        # (3) random values of the whole type range
+        lo, hi = {"sc": (-128, 127), "uc": (0, 255), "c": (-128, 127), "sh": (-32768, 32767), "b": (0, 1)}[ty]
+        for _ in range(3000 if thorough else 400):
+            n = g.rnd.randint(0, 8)
+            r = [g.rnd.choice([lo, hi, g.rnd.randint(lo, hi), g.rnd.randint(lo, hi) // 16]) for _ in range(n)]
+            b = list(r)
+            if b and g.rnd.random() < 0.7:
+                b[g.rnd.randrange(len(b))] = g.rnd.randint(lo, hi)
+            if g.rnd.random() < 0.3:
+                b = b[: g.rnd.randint(0, len(b))]
+            a, f, l = [ctx] + r + [ctx], 1, 1 + n
+            cmp = g.rnd.choice(["dflt", "less", "greater"])
+            add("lexicographical_compare", ty, a, f, l, "b=%s cmp=%s" % (fmt_list(b), cmp))
+            add("mismatch", ty, a, f, l, "b=%s ov=4" % fmt_list(b))
+            add("equal", ty, a, f, l, "b=%s ov=4" % fmt_list(b))
+            add(g.rnd.choice(ARITH_SORTS), ty, a, f, l, "cmp=" + cmp)
+            add(g.rnd.choice(["min_element", "max_element", "minmax_element"]), ty, a, f, l, "cmp=" + cmp)
 
 
 def gen_random(g, count, thorough):
@@ -498,6 +657,7 @@ def generate(tier, seed):
     gen_copies(g, 6 if thorough else 5)
     gen_minmax(g)
     gen_numeric(g, 5 if thorough else 4, 3 if thorough else 2)
+    gen_arith(g, thorough)
     gen_random(g, 150000 if thorough else 15000, thorough)
     return g.cases, False, g.dist
 
@@ -543,13 +703,21 @@ LEVEL_TEXT = ("Every function of etl/algorithm.hpp and the folds of etl/numeric.
               "another object) are modelled with the destination storage, the window the caller provides and the output index: the "
               "`_out` theorems prove destination = D_pre ++ result ++ untouched rest of the window ++ D_post and the RETURNED output "
               "iterator = start + |result| (the pre-fix copy_n and remove_copy_if code is proved to violate them). The second range of "
-              "search / find_end / find_first_of is read through checked reads too. Hypotheses are the standard's preconditions only "
+              "search / find_end / find_first_of is read through checked reads too. Single-pass input iterators: for find / find_if / "
+              "find_if_not / all_of / any_of / none_of / count / count_if / for_each / for_each_n / is_partitioned / mismatch / equal "
+              "(3 iterators; 4 iterators, non-random-access branch) / lexicographical_compare / includes / accumulate / reduce / "
+              "inner_product the loop is modelled a second time on a stream whose cursor is shared by all iterator copies (using a "
+              "stale copy is an error) and proved to return the same specified result (`X_singlePass`): one forward pass, no position "
+              "re-read after it was passed; the distance-first 4-iterator equal is proved to violate this on every pair of non-empty "
+              "ranges of equal length. reverse_iterator's six relations and difference are proved to order the designated positions "
+              "(and to exclude the un-inverted relations), reverse over reverse iterators is proved. Hypotheses are the standard's preconditions only "
               "(comparator is a strict weak order, binary predicate of is_permutation an equivalence, partitioned inputs for the "
               "binary searches, sorted inputs for set operations and inplace_merge, non-overlap rule of copy / copy_backward, room in "
               "the second range and in the destination). All algorithms are tied to the current source on every run: model, "
-              "implementation (ASan/UBSan, exact-size heap ranges, context sentinels, predicate-touch log, pointer / input / forward / "
-              "bidirectional / write-only output / range-checked random-access iterator wrappers) and libstdc++ are run on the same "
-              "inputs — exhaustive over a small box (3 keys up to length 5 quick / 6 thorough, the 4th key up to length 3 / 5, 2 keys up "
+              "implementation (ASan/UBSan, exact-size heap ranges, context sentinels, predicate-touch log, pointer / input / genuinely "
+              "single-pass input / forward / bidirectional / write-only output / range-checked random-access iterator wrappers; struct "
+              "elements with identity tags and signed char / unsigned char / char / short / bool arrays, a sample of the latter also "
+              "evaluated in constant expressions) and libstdc++ are run on the same inputs — exhaustive over a small box (3 keys up to length 5 quick / 6 thorough, the 4th key up to length 3 / 5, 2 keys up "
               "to length 6 / 7 for the index-arithmetic mechanisms: smaller than the 6-7 x 3-4 box the property names, see rule) and "
               "random beyond; the spec is validated against libstdc++ on the same inputs.")
 LEVEL_NOTE = ("Trusted: Lean kernel + propext/Classical.choice/Quot.sound; the hand model's fidelity outside the explored inputs; "
@@ -571,8 +739,11 @@ WITH_THEOREM = [
     "reverse_copy (+ destination/returned iterator)", "rotate_copy (+ destination/returned iterator)",
     "copy / move into another object through an output iterator",
     "is_partitioned", "partition_point", "find_first_of (needle as list and as checked range)", "rotate", "reverse (both branches)",
+    "reverse over reverse_iterators", "reverse_iterator relations ==, !=, <, <=, >, >= and difference",
     "lower_bound", "upper_bound",
     "equal_range", "mismatch (3/4 iterators)", "equal (3 iterators, 4 iterators both branches)", "lexicographical_compare",
+    "single-pass discipline of find / find_if / find_if_not / all_of / any_of / none_of / count / count_if / for_each / for_each_n / "
+    "is_partitioned / mismatch / equal / lexicographical_compare / includes / accumulate / reduce / inner_product",
     "accumulate", "reduce", "transform_reduce (unary)", "min", "max", "minmax", "clamp", "remove", "remove_if", "fill", "fill_n",
     "generate", "generate_n", "iota", "replace", "replace_if", "swap_ranges",
     "merge (+ destination/returned iterator)", "stable_partition", "inner_product", "transform_reduce (binary)",
@@ -597,4 +768,11 @@ UNPROVED_OBSERVED = [
     "calls (unspecified evaluation order of function arguments)",
     "search(first, last, searcher) / default_searcher and iter_swap with two different iterator types: neither modelled nor run",
     "min / max / minmax / clamp return REFERENCES to their arguments: the harness compares values (and identity tags), not addresses",
+    "single-pass behaviour of the remaining input-iterator algorithms (copy, move, copy_if, copy_n, remove_copy(_if), unique_copy, "
+    "transform 1/2, partition_copy, merge, set_*, partial_sum, adjacent_difference, transform_reduce, find_first_of's first range): "
+    "observed by running them on the single-pass iterator `in1` (stale copy => !multipass), no single-pass model/theorem",
+    "agreement of the run-time path with the constant-evaluated path (no `is_constant_evaluated` fork, no memcmp-style fast path for "
+    "narrow arithmetic types): observed on the constexpr tables of the harness (`ce=`) for lexicographical_compare, equal, mismatch, "
+    "search, min/max_element, sort, stable_sort, find, count over signed char / unsigned char / char / short / bool; the theorems are "
+    "about the one generic loop the source has",
     "complexity requirements of the standard (not part of the property; partition_point is linear here)"]
